@@ -1,5 +1,6 @@
 import Refine.Lemmas.ReconParHess
 import Refine.Lemmas.ReconParKexact
+import Refine.Lemmas.ReconParCounter
 import Refine.Props.C19
 import Refine.Props.C19Kexact
 
@@ -26,6 +27,7 @@ import Refine.Props.C19Kexact
 namespace Refine.Props.C19Par
 open Refine Refine.Model.Geom Refine.Model.Recon Refine.Model.ReconPar Refine.ScalarReal Refine.GeomReal
 open Refine.ReconReal Refine.ReconParGhost Refine.ReconParMesh Refine.ReconParHess Refine.ReconParKexact
+open Refine.ReconParCounter
 open Refine.Model.Comm (World RefType)
 open Refine.Model.Kexact (Item KSt grow kexactNode kexactWithAux layerLoop)
 
@@ -157,98 +159,43 @@ theorem kexact_cloud_partition_independent_partial (twod : Bool) (layerW layerS 
       kexactNode layerW c twod = kexactNode layerS c twod) :=
   ⟨grow_first layerW layerS c h0 h1, kexactNode_first twod layerW layerS c h0 h1⟩
 
-/-! ### non-vacuity: a 2-rank and a 3-rank world (one rank empty) satisfying `DistOK` -/
+/-! ### the counter-statement and non-vacuity: a 2-rank and a 3-rank world (one rank empty)
 
-/-- two tets sharing the face (1,2,3); rank 0 owns vertex 0 only (and stores tet A with three ghosts), rank 1 owns
-    1..4 and stores both tets in a shuffled local numbering, vertex 0 as a ghost -/
-def exCells : List Cell := [⟨CellKind.tet, [0, 1, 2, 3]⟩, ⟨CellKind.tet, [1, 2, 3, 4]⟩]
+  Two tets sharing the face (v1,v2,v3): `A = (v0,v1,v2,v3)` the unit tet, `B = (v1,v2,v3,v4)`, `v4 = (1,1,1)`
+  (`cxyz`, `cCells`); the quadratic field `1 + 2x + 3y + 4z + (xy + yz + zx)/3` (`cfld` = 1, 3, 4, 5, 11).
+  `exWorld2`: rank 0 owns `v0` only and stores tet `A` with three ghosts, rank 1 owns `v1..v4` and stores both tets in a
+  shuffled local numbering with `v0` as a ghost; `exWorld3` adds a rank that stores nothing. -/
 
-def exRank0 : Rank := ⟨[0, 1, 2, 3], [0, 1, 1, 1], [⟨CellKind.tet, [0, 1, 2, 3]⟩], []⟩
-def exRank1 : Rank := ⟨[1, 2, 3, 4, 0], [1, 1, 1, 1, 0], [⟨CellKind.tet, [0, 1, 2, 3]⟩, ⟨CellKind.tet, [4, 0, 1, 2]⟩], []⟩
-def exRankEmpty : Rank := ⟨[], [], [], []⟩
+/-- both worlds satisfy the distributed invariant `DistOK` -/
+theorem exWorlds_ok : DistOK false cxyz.length cCells exWorld2 ∧ DistOK false cxyz.length cCells exWorld3 :=
+  ⟨exWorld2_ok, exWorld3_ok⟩
 
-def exWorld2 : World Rank := [exRank0, exRank1]
-def exWorld3 : World Rank := [exRank0, exRank1, exRankEmpty]
+/-- **the intermediate refresh is necessary** (this pins the seeded change `C19_l2_hessian_single_ghost_exchange`):
+    on the 2-rank world, for the quadratic field, at the vertex `v0` OWNED by rank 0 and adjacent to the partition
+    boundary (all its neighbours belong to rank 1), the L2 Hessian as coded — gradient refreshed before it is
+    projected again — is the serial one, every entry `1/3`; with the four projections local and one refresh of the
+    assembled Hessian at the end (`l2hessianSingleExchange`) the same vertex gets the ZERO Hessian: an O(1) error in
+    the interior of the domain that depends on the partition, although linear fields stay exact -/
+theorem l2hessian_single_exchange_differs :
+    (∃ H, l2hessianPar false cxyz exWorld2 (exWorld2.map fun r => r.restrict 0 cfld) = some H ∧
+      (H.getD 0 []).getD 0 z6 = ⟨1 / 3, 1 / 3, 1 / 3, 1 / 3, 1 / 3, 1 / 3⟩) ∧
+    (∃ H', l2hessianSingleExchange false cxyz exWorld2 (exWorld2.map fun r => r.restrict 0 cfld) = some H' ∧
+      (H'.getD 0 []).getD 0 z6 = z6) := by
+  refine ⟨⟨_, l2hessian_partition_independent false cxyz cfld cCells exWorld2 exWorld2_ok _ rfl, ?_⟩,
+    single_exchange_v0⟩
+  have h := serial_hessian_v0
+  have hl : 0 < (l2hessian false cxyz cfld cCells).length := by
+    by_contra hcon
+    rw [List.getElem?_eq_none (by omega)] at h
+    exact absurd h (by simp)
+  rw [List.getElem?_eq_getElem hl, Option.some.injEq] at h
+  simp [exWorld2, exRank0, Rank.restrict, List.getD_eq_getElem?_getD, List.getElem?_eq_getElem hl, h]
 
-/-- clause (ii) at a vertex, checked by evaluation -/
-theorem exComplete (r : Rank) (i : Nat)
-    (h : (((allTets r.cells).map (globTet r.l2g)).filter (tetTouches (gOf r.l2g i))).Perm
-      ((allTets exCells).filter (tetTouches (gOf r.l2g i)))) : CompleteAt false exCells r i := by
-  unfold CompleteAt
-  simp only [Bool.false_eq_true, if_false]
-  exact h
-
-theorem exWorld3_ok : DistOK false 5 exCells exWorld3 := by
-  refine ⟨⟨?_, ?_, ?_, ?_⟩, ?_, ?_, ?_⟩
-  · intro r hr
-    simp only [exWorld3, List.mem_cons, List.not_mem_nil, or_false] at hr
-    rcases hr with rfl | rfl | rfl <;> decide
-  · intro r hr
-    simp only [exWorld3, List.mem_cons, List.not_mem_nil, or_false] at hr
-    rcases hr with rfl | rfl | rfl <;> rfl
-  · intro me r hr i p hp hne
-    match me, hr with
-    | 0, hr =>
-      obtain rfl : exRank0 = r := by simpa [exWorld3] using hr
-      match i, hp with
-      | 0, hp => simp [exRank0] at hp; omega
-      | 1, hp => obtain rfl : 1 = p := by simpa [exRank0] using hp
-                 exact ⟨exRank1, 0, rfl, rfl, rfl⟩
-      | 2, hp => obtain rfl : 1 = p := by simpa [exRank0] using hp
-                 exact ⟨exRank1, 1, rfl, rfl, rfl⟩
-      | 3, hp => obtain rfl : 1 = p := by simpa [exRank0] using hp
-                 exact ⟨exRank1, 2, rfl, rfl, rfl⟩
-      | k + 4, hp => simp [exRank0] at hp
-    | 1, hr =>
-      obtain rfl : exRank1 = r := by simpa [exWorld3] using hr
-      match i, hp with
-      | 0, hp => simp [exRank1] at hp; omega
-      | 1, hp => simp [exRank1] at hp; omega
-      | 2, hp => simp [exRank1] at hp; omega
-      | 3, hp => simp [exRank1] at hp; omega
-      | 4, hp => obtain rfl : 0 = p := by simpa [exRank1] using hp
-                 exact ⟨exRank0, 0, rfl, rfl, rfl⟩
-      | k + 5, hp => simp [exRank1] at hp
-    | 2, hr =>
-      obtain rfl : exRankEmpty = r := by simpa [exWorld3] using hr
-      simp [exRankEmpty] at hp
-    | k + 3, hr => simp [exWorld3] at hr
-  · decide
-  · intro r hr g hg
-    simp only [exWorld3, List.mem_cons, List.not_mem_nil, or_false] at hr
-    rcases hr with rfl | rfl | rfl <;> simp [exRank0, exRank1, exRankEmpty] at hg <;> omega
-  · intro r hr
-    simp only [exWorld3, List.mem_cons, List.not_mem_nil, or_false] at hr
-    rcases hr with rfl | rfl | rfl <;> (simp only [Bool.false_eq_true, if_false]; unfold TetsWF; decide)
-  · intro me r hr i hp
-    match me, hr with
-    | 0, hr =>
-      obtain rfl : exRank0 = r := by simpa [exWorld3] using hr
-      match i, hp with
-      | 0, _ => exact exComplete _ _ (by decide)
-      | 1, hp => simp [exRank0] at hp
-      | 2, hp => simp [exRank0] at hp
-      | 3, hp => simp [exRank0] at hp
-      | k + 4, hp => simp [exRank0] at hp
-    | 1, hr =>
-      obtain rfl : exRank1 = r := by simpa [exWorld3] using hr
-      match i, hp with
-      | 0, _ => exact exComplete _ _ (by decide)
-      | 1, _ => exact exComplete _ _ (by decide)
-      | 2, _ => exact exComplete _ _ (by decide)
-      | 3, _ => exact exComplete _ _ (by decide)
-      | 4, hp => simp [exRank1] at hp
-      | k + 5, hp => simp [exRank1] at hp
-    | 2, hr =>
-      obtain rfl : exRankEmpty = r := by simpa [exWorld3] using hr
-      simp [exRankEmpty] at hp
-    | k + 3, hr => simp [exWorld3] at hr
-
-/-- the 3-rank world (rank 2 stores nothing) meets the hypotheses of the two partition-independence theorems, for
-    any coordinates and any field -/
+/-- the 3-rank world (rank 2 stores nothing) meets the hypotheses of the partition-independence theorems, for any
+    coordinates and any field -/
 example (gxyz : List (V3 ℝ)) (h : gxyz.length = 5) (gs : List ℝ) :
     l2hessianPar false gxyz exWorld3 (exWorld3.map fun r => r.restrict 0 gs) =
-      some (exWorld3.map fun r => r.restrict z6 (l2hessian false gxyz gs exCells)) :=
-  l2hessian_partition_independent false gxyz gs exCells exWorld3 (h ▸ exWorld3_ok) _ rfl
+      some (exWorld3.map fun r => r.restrict z6 (l2hessian false gxyz gs cCells)) :=
+  l2hessian_partition_independent false gxyz gs cCells exWorld3 (h ▸ exWorld3_ok) _ rfl
 
 end Refine.Props.C19Par
